@@ -98,6 +98,7 @@ def inline_new_helpers(d, short_name):
                                     'stmts': [{'pl': {'l': ol + k + 1, 'p': []}, 'rv': {'k': 'use', 'a': a}, 'sp': t.get('sp')} for k, a in enumerate(t['args'])],
                                     'term': {'k': 'goto', 't': ob}})
                 c['blocks'][bi]['term'] = {'k': 'goto', 't': glue}
+                c.setdefault('inlined_params', []).extend(ol + k + 1 for k in range(h['argc']))
                 done.append((p, hp))
                 changed = True
         if not changed:
